@@ -203,6 +203,34 @@ def Clean (nproc : Nat) (rep : Report) : Prop :=
 
 instance (n : Nat) (rep : Report) : Decidable (Clean n rep) := by unfold Clean; infer_instance
 
+/-! ### a retryable (signing) process object that is Run several times and stopped once -/
+
+/-- one `Run` of the repaired signing processes: release the previous run's subscription, then subscribe -/
+def runAgain (sid : Sid) (st : Reg × Option Nat) : Reg × Option Nat :=
+  let r := match st.2 with
+    | some i => st.1.unsubscribe [i]
+    | none => st.1
+  let (r', ids) := r.subscribe sid 1
+  (r', ids.head?)
+
+/-- as found: `Run` overwrote `subscriptionID` without releasing it -/
+def runAgainAsFound (sid : Sid) (st : Reg × Option Nat) : Reg × Option Nat :=
+  let (r', ids) := st.1.subscribe sid 1
+  (r', ids.head?)
+
+def iter {α : Type} (f : α → α) : Nat → α → α
+  | 0, a => a
+  | n + 1, a => iter f n (f a)
+
+/-- `Stop`: release the subscription the object remembers -/
+def stopProc (st : Reg × Option Nat) : Reg :=
+  match st.2 with
+  | some i => st.1.unsubscribe [i]
+  | none => st.1
+
+def rerun (r : Reg) (sid : Sid) (n : Nat) : Reg := stopProc (iter (runAgain sid) n (r, none))
+def rerunAsFound (r : Reg) (sid : Sid) (n : Nat) : Reg := stopProc (iter (runAgainAsFound sid) n (r, none))
+
 /-- registries with nothing left of any session -/
 def Reg.Idle (r : Reg) : Prop := r.pending = [] ∧ r.live = [] ∧ r.streams = []
 
